@@ -131,7 +131,6 @@ def execute(scn):
                                  if m['op'] != 'NewModel']}]}]}}}})
     detail = dict(start=i, n=n, driver=scn['driver'], simple=scn['simple'],
                   clean=not lossy, app_unchanged=unchanged,
-                  merged_initials=merged,
                   ops_str=' '.join(c03.mut_tags({'muts': muts})), **feats)
     fault = scn.get('fault')
     res = {'violations': viols, 'stats': stats, 'nontrivial': False,
